@@ -188,6 +188,8 @@ def apply_edits(item, edits, twin_false=False):
             item.replace(kind, e["a"], e["b"], int(at.get("count", "1")), at.get("why", ""))
         elif k == "desugar-for":
             item.desugar_for(int(at["loop"]), at.get("it", "vit"))
+        elif k == "sinks":
+            item.sinks(int(at.get("count", "0")), at.get("fn", "ext_sink"))
         elif k == "drop-logs":
             item.drop_logs(int(at.get("count", "0")))
         elif k == "desugar-match-str":
